@@ -2149,6 +2149,18 @@ def corpus():
               "ops": [["start", "m1", None, "cb"], ["start", "m2", None, "cb"], ["adv", 2], ["stop", "m1", "cb"], ["adv", 1],
                       ["stop", "m1", "cb"], ["start", "m1", None, "cb"], ["adv", 8], ["stop", "m1", "cb"], ["qev", "start_m1"],
                       ["adv", 2], ["ev", "start_m2"], ["adv", 2], ["ballend"], ["adv", 8]]})
+    # (found by this oracle, fixed on verif-C07-s3: the start callback is handed over in _started) the turn ends while a game
+    # mode is still starting, so the mode controller stops it from a mode_<n>_started handler; a mode_<n>_stopped handler starts
+    # it again with a callback - all of that runs before the callback of the first mode_<n>_started event, which then called the
+    # callback of the SECOND start (twice in the end, the first time while the mode was only starting)
+    c.append({"kind": "modes", "game": True, "modes": {"m2": [150, True, False, "gamecfgq"]},
+              "hooks": [{"mode": "m2", "phase": "stopped", "prio": 5000, "acts": [["start", "m2", None, "cb"], ["addh", "m2"]]},
+                        {"mode": "m2", "phase": "starting", "prio": 5000, "acts": [["wait", 9]]}],
+              "ops": [["ev", "start_m2"], ["ballend"]]})
+    c.append({"kind": "modes", "game": True, "modes": {"m2": [200, True, False, "plain"]},
+              "hooks": [{"mode": "m2", "phase": "stopped", "prio": 1, "acts": [["start", "m2", None, "cb"]]},
+                        {"mode": "m2", "phase": "starting", "prio": 1, "acts": [["wait", 9]]}],
+              "ops": [["start", "m2", None, "cb"], ["ballend"], ["adv", 16]]})
     return c
 
 
